@@ -41,9 +41,10 @@ def bits(mask):
 
 
 class St:
-    __slots__ = ("win", "consumed", "err", "ate_err", "cerr", "ms", "prog", "loc")
+    __slots__ = ("win", "consumed", "err", "ate_err", "cerr", "ms", "prog", "loc", "mt")
 
-    def __init__(self, win, loc, ms=(), consumed=False, err=False, ate_err=False, cerr=False, prog=()):
+    def __init__(self, win, loc, ms=(), consumed=False, err=False, ate_err=False, cerr=False, prog=(), mt=()):
+        self.mt = mt                # ((marker id, mask of token kinds consumed singly while it was the innermost open marker), ...)
         self.win = win
         self.loc = loc
         self.ms = ms
@@ -54,10 +55,10 @@ class St:
         self.prog = prog            # tuple of (loop header, progressed?)
 
     def copy(self):
-        return St(self.win, list(self.loc), self.ms, self.consumed, self.err, self.ate_err, self.cerr, self.prog)
+        return St(self.win, list(self.loc), self.ms, self.consumed, self.err, self.ate_err, self.cerr, self.prog, self.mt)
 
     def key(self):
-        return (self.win, self.consumed, self.err, self.ate_err, self.cerr, self.ms, self.prog, tuple(self.loc))
+        return (self.win, self.consumed, self.err, self.ate_err, self.cerr, self.ms, self.prog, tuple(self.loc), self.mt)
 
 
 import heapq
@@ -116,6 +117,7 @@ class GrammarAI:
         self.outer_consumed = []
         self.cur_site = None
         self.callargs = defaultdict(set)
+        self.node_tokens = defaultdict(int)   # mask of the completed node kind(s) -> mask of token kinds consumed directly under the marker (same path)
         self.token_parent = defaultdict(set)  # (grammar function, kind mask of a single consumed token) -> {"passed","local","none"}: whose marker is innermost when it is consumed
         self.edge_first = defaultdict(int)    # (caller, callee, bb) -> union of the kind sets of the next token when the call is made
         self.cm_kinds = defaultdict(int)      # (caller, callee) -> union of node-kind masks of CompletedMarker arguments (-1: unknown)
@@ -619,6 +621,10 @@ class GrammarAI:
         top = st.ms[-1] if st.ms else None
         cls = "none" if top is None else ("passed" if isinstance(top, tuple) and top and top[0] == "in" else "local")
         self.token_parent[(key[0], w[0] if n == 1 else -1)].add(cls)
+        if top is not None and n == 1:
+            d = dict(st.mt)
+            d[top] = d.get(top, 0) | w[0]
+            st.mt = tuple(sorted(d.items(), key=repr))
         if n < WIN:
             st.win = tuple(w[n:WIN]) + (self.alphabet,) * n + (w[4] >> n, w[5] >> n)
         else:
@@ -793,7 +799,7 @@ class GrammarAI:
             for i in range(nloc):
                 if lc[i] is not None and i not in lv:
                     lc[i] = None
-            k_ = (st.consumed, st.err, st.ate_err, st.cerr, st.ms, st.prog, tuple(lc))
+            k_ = (st.consumed, st.err, st.ate_err, st.cerr, st.ms, st.prog, tuple(lc), st.mt)
             sb = seen[bb]
             old = sb.get(k_)
             w = st.win
@@ -818,7 +824,7 @@ class GrammarAI:
                 work.append((t["target"], st, bb))
             elif tk == "return":
                 rv = st.loc[0] if st.loc[0] is not None else TOP
-                fk = (st.win, st.consumed, st.err, st.ate_err, st.cerr, st.ms, rv)
+                fk = (st.win, st.consumed, st.err, st.ate_err, st.cerr, st.ms, rv, st.mt)
                 if fk not in fin_seen:
                     fin_seen.add(fk)
                     finals.append((st, rv))
@@ -1076,8 +1082,11 @@ class GrammarAI:
             return
         if cal == PP + "Marker::complete":
             m, k = args[0], args[2] if len(args) > 2 else TOP
+            self.closed_tokens = 0
             self.close_marker(st, m, key, body, t, "complete")
             km = k[1] if k[0] == "k" else self.all_kinds()
+            if self.closed_tokens and not st.err:      # only parses without a diagnostic so far in this activation
+                self.node_tokens[km if k[0] == "k" else -1] |= self.closed_tokens
             if (km & self.ERROR) and not st.err:
                 st.cerr = True
             ret(st, ("agg", PP + "CompletedMarker", 0, (TOP, kind(km))))
@@ -1159,6 +1168,12 @@ class GrammarAI:
             self.alarm(key, "AI-MODEL", body, t["at"], f"{op} on a value that is not a tracked marker ({m})")
             return
         mid = m[1]
+        if st.mt:
+            d = dict(st.mt)
+            self.closed_tokens = d.pop(mid, 0)
+            st.mt = tuple(sorted(d.items(), key=repr))
+        else:
+            self.closed_tokens = 0
         if mid not in st.ms:
             self.alarm(key, "MARKER-LIFO", body, t["at"], f"{op} of a marker that is not open in this activation (double close?)", op)
             return
@@ -1264,7 +1279,7 @@ class GrammarAI:
         cb = self.prog.bodies[cal]
         leaf = "{closure" not in cal
         if leaf:
-            ck = (cal, st.win, tuple(args), st.ms)
+            ck = (cal, st.win, tuple(args), st.ms, st.mt)
             hit = self.icache.get(ck)
             if hit is not None:
                 self.stats["icache_hit"] += 1
@@ -1286,7 +1301,7 @@ class GrammarAI:
         loc = [None] * len(cb.locals)
         for i, a in enumerate(args[:cb.nargs]):
             loc[i + 1] = a
-        s0 = St(st.win, loc, ms=st.ms, consumed=False, err=False)
+        s0 = St(st.win, loc, ms=st.ms, consumed=False, err=False, mt=st.mt)
         self.outer_consumed.append(st.consumed or (self.outer_consumed[-1] if self.outer_consumed else False))
         finals = self.run_body(cb, s0, key)
         self.outer_consumed.pop()
@@ -1327,6 +1342,7 @@ class GrammarAI:
                 s2.win = s2.win[:4] + (s2.win[4] | sf.win[4], s2.win[5] | sf.win[5])
             self.propagate_err(s2, sf.ate_err, sf.cerr, sf.err, cal, t, body, key, caller_is_method)
             s2.ms = sf.ms
+            s2.mt = sf.mt
             ret(s2, rv)
 
     def propagate_err(self, s2, ate_err, cerr, err, cal, t, body, key, caller_is_method):
@@ -1436,6 +1452,8 @@ class GrammarAI:
                 if mk_ not in ren2:
                     ren2[mk_] = ("ret", site, mk_) if mk_[0] != "ret" else ("ret", site, mk_[2])
             s2.ms = base_ms + tuple(ren2[m_] for m_ in ms_out)
+            if s2.mt:
+                s2.mt = tuple(x for x in s2.mt if x[0] in s2.ms)
             ret(s2, self.rename_markers(rv, ren2))
 
     def rename_markers(self, v, ren):
